@@ -489,12 +489,225 @@ fn raw_disclosure_part(rep: &mut Report, seed: u64, n_runs: usize, k: usize, p: 
     rep.add("raw_disclosure_hits", total as u64);
 }
 
+// ---- (7) what a peer's view determines through the opened aBit check parities ------------------------
+
+const RHO: usize = 40;
+const ABIT_CHECKS: usize = 3 * RHO;
+
+#[derive(Clone)]
+struct Gf2Row(Vec<u64>);
+
+impl Gf2Row {
+    fn new(cols: usize) -> Self { Gf2Row(vec![0; (cols + 1).div_ceil(64)]) }
+    fn get(&self, i: usize) -> bool { self.0[i / 64] >> (i % 64) & 1 == 1 }
+    fn flip(&mut self, i: usize) { self.0[i / 64] ^= 1 << (i % 64); }
+    fn xor(&mut self, o: &Gf2Row) { for (a, b) in self.0.iter_mut().zip(&o.0) { *a ^= *b; } }
+}
+
+/// Gaussian elimination with the columns in `order`; returns the rows of the echelon form whose
+/// leading column is at index >= `tail_from` of `order` (relations that only involve tail columns).
+fn relations_in_tail(mut rows: Vec<Gf2Row>, order: &[usize], tail_from: usize) -> Vec<Gf2Row> {
+    let mut next = 0;
+    let mut out = vec![];
+    for (oi, c) in order.iter().enumerate() {
+        let Some(p) = (next..rows.len()).find(|&r| rows[r].get(*c)) else { continue };
+        rows.swap(next, p);
+        let pivot = rows[next].clone();
+        for (r, row) in rows.iter_mut().enumerate() {
+            if r != next && row.get(*c) { row.xor(&pivot); }
+        }
+        if oi >= tail_from { out.push(rows[next].clone()); }
+        next += 1;
+    }
+    out
+}
+
+fn raw_msg<'a>(ex: &'a Exec, from: usize, to: usize, label: &str, k: usize) -> Option<&'a [u8]> {
+    ex.net.msgs.iter().find(|m| m.from == from && m.to == to && m.k == k && ex.net.label(m.label) == label).map(|m| m.sent.as_slice())
+}
+
+struct ViewOut {
+    harness: Option<String>,
+    key: String,
+    /// (victim, observer, support (input indices of the victim), value) of every relation found
+    relations: Vec<(usize, usize, Vec<usize>, bool)>,
+    pairs: usize,
+    equations: usize,
+    validated: usize,
+    sample: Value,
+}
+
+/// One honest execution of a tiny circuit; for every (victim, observer) pair: the GF(2) system an
+/// observer can set up from its own view - the public check vectors r_j (expanded from the opened
+/// coin-toss seed), the victim's opened parities <r_j, x> ('fabitn'), the victim's opened aShare check
+/// bits ('fashare ver') and the victim's shares of the observer's input wires ('wire shares') - is
+/// reduced; the view must not determine any GF(2)-linear relation among the victim's own mask shares of
+/// its input wires (in particular not a single one of them).
+fn abit_view_run(i: usize, seed: u64) -> ViewOut {
+    use polytune::garble_lang::register_circuit::Op;
+    let mut rng = ChaCha8Rng::seed_from_u64(seed ^ 0xab17 ^ (i as u64).wrapping_mul(0x9e3779b97f4a7c15));
+    let n = 2 + (i % 3 == 2) as usize;
+    let ins: Vec<usize> = (0..n).map(|_| 1 + (rng.random_range(0..6usize) / 2) % 3).collect();
+    let ands = rng.random_range(0..3usize) + (i % 7 == 0) as usize * 30;
+    let mut b = Builder::new(&ins);
+    let mut acc = b.input(0, 0);
+    let mut outs = vec![];
+    for a in 0..ands {
+        let q = (a + 1) % n;
+        let y = b.input(q, a % ins[q]);
+        let t = b.and(acc, y);
+        acc = b.xor(t, b.input(a % n, 0));
+        if a % 2 == 0 { outs.push(t); }
+    }
+    outs.push(acc);
+    let c = b.finish(outs);
+    let inputs: Vec<Vec<bool>> = ins.iter().map(|k| (0..*k).map(|_| rng.random()).collect()).collect();
+    let p_eval = rng.random_range(0..n);
+    let key = format!("abit-view|n={n}|inputs={:?}|ands={}", ins, if ands >= 30 { "30+".to_string() } else { ands.to_string() });
+    let mut case = Case::new(c.clone(), inputs.clone(), p_eval, (0..n).collect());
+    case.record_probes = true;
+    let ex = exec_mpc(case);
+    let mut out = ViewOut { harness: None, key, relations: vec![], pairs: 0, equations: 0, validated: 0, sample: json!(null) };
+    if ex.end != RunEnd::AllFinished || !ex.outcomes.iter().all(|o| matches!(o, Outcome::Done(Ok(_)))) {
+        out.harness = Some(format!("honest run failed: {:?}", ex.end));
+        return out;
+    }
+    // position of every input wire in the first batch of random shares (instruction order)
+    let mut pos_of: Vec<Vec<usize>> = ins.iter().map(|k| vec![usize::MAX; *k]).collect();
+    let mut pos = 0usize;
+    for inst in &c.insts {
+        match &inst.op {
+            Op::Input(inp) => { pos_of[inp.party as usize][inp.input as usize] = pos; pos += 1; }
+            Op::And(_) => pos += 1,
+            _ => {}
+        }
+    }
+    let secret_bits = pos;
+    // the public seed of the multi-party coin toss = XOR of all openings (occurrence 1 of 'RNG ver')
+    let mut mseed = [0u8; 32];
+    for q in 0..n {
+        let to = (q + 1) % n;
+        let Some(m) = raw_msg(&ex, q, to, "RNG ver", 1) else { out.harness = Some("no multi-party 'RNG ver'".into()); return out };
+        if m.len() != 40 { out.harness = Some("unexpected 'RNG ver' layout".into()); return out; }
+        for (s, b) in mseed.iter_mut().zip(&m[8..]) { *s ^= *b; }
+    }
+    let mut akey = [0u8; 16];
+    {
+        use rand::RngCore;
+        rand_chacha::ChaCha20Rng::from_seed(mseed).fill_bytes(&mut akey);
+    }
+    for v in 0..n {
+        for o in (0..n).filter(|o| *o != v) {
+            out.pairs += 1;
+            let Some(kos) = raw_msg(&ex, v, o, "KOS_OT_corr", 0) else { out.harness = Some("no 'KOS_OT_corr'".into()); return out };
+            let lprime = u64::from_le_bytes(kos[..8].try_into().unwrap()) as usize;
+            if lprime < secret_bits + RHO || secret_bits > 1000 { out.harness = Some("unexpected aBit length".into()); return out; }
+            let pads_from = secret_bits + RHO;
+            let blocks = lprime.div_ceil(128);
+            let stream = prim::ctr_keystream(akey, ABIT_CHECKS * blocks * 16);
+            let Some(par) = raw_msg(&ex, v, o, "fabitn", 0) else { out.harness = Some("no 'fabitn'".into()); return out };
+            if par.len() != 8 + ABIT_CHECKS * 17 { out.harness = Some("unexpected 'fabitn' layout".into()); return out; }
+            let Some(ver) = raw_msg(&ex, v, o, "fashare ver", 0) else { out.harness = Some("no 'fashare ver'".into()); return out };
+            let Some(Val::Vec(ver)) = codec::schema_for("fashare ver").and_then(|s| codec::decode_all(&s, ver)) else { out.harness = Some("undecodable 'fashare ver'".into()); return out };
+            if ver.len() != RHO { out.harness = Some("unexpected 'fashare ver' layout".into()); return out; }
+            // model validation against the probed x of the victim (hooks): every parity equation holds
+            let x_true: Option<Vec<bool>> = ex.probes.iter().find(|r| r.site == "fabitn.x" && r.index == v).map(|r| r.value.iter().map(|b| *b != 0).collect());
+            let mut rows = vec![];
+            for j in 0..ABIT_CHECKS {
+                let mut row = Gf2Row::new(lprime);
+                for k in 0..lprime {
+                    let byte = stream[(j * blocks + k / 128) * 16 + (k % 128) / 8];
+                    if byte >> (k % 8) & 1 == 1 { row.flip(k); }
+                }
+                if par[8 + j * 17] & 1 == 1 { row.flip(lprime); }
+                if let Some(x) = &x_true {
+                    if x.len() != lprime { out.harness = Some("probed x has another length than the OT".into()); return out; }
+                    let lhs = (0..lprime).fold(false, |a, k| a ^ (row.get(k) & x[k]));
+                    if lhs != row.get(lprime) { out.harness = Some("observer model does not reproduce the opened parities (check-vector expansion differs)".into()); return out; }
+                    out.validated += 1;
+                }
+                rows.push(row);
+            }
+            for (r, dm) in ver.iter().enumerate() {
+                let Val::Vec(bytes) = dm else { out.harness = Some("unexpected 'fashare ver' entry".into()); return out };
+                let Some(Val::U8(b0)) = bytes.first() else { out.harness = Some("empty 'fashare ver' entry".into()); return out };
+                let mut row = Gf2Row::new(lprime);
+                row.flip(secret_bits + r);
+                if b0 & 1 == 1 { row.flip(lprime); }
+                rows.push(row);
+            }
+            // the victim's shares of the observer's input wires are sent to the observer
+            if let Some(ws) = opt_vec(&ex, v, o, "wire shares") {
+                for (ii, ppos) in pos_of[o].iter().enumerate() {
+                    let reg = c.insts.iter().find_map(|inst| if let Op::Input(inp) = &inst.op { if inp.party as usize == o && inp.input as usize == ii { Some(inst.out.0 as usize) } else { None } } else { None });
+                    if let Some(Some(Val::Tuple(t))) = reg.and_then(|r| ws.get(r)) {
+                        if let Val::Bool(bit) = t[0] {
+                            let mut row = Gf2Row::new(lprime);
+                            row.flip(*ppos);
+                            if bit != 0 { row.flip(lprime); }
+                            rows.push(row);
+                        }
+                    }
+                }
+            }
+            out.equations += rows.len();
+            // eliminate everything but the victim's own input-wire positions first
+            let tail: Vec<usize> = pos_of[v].clone();
+            let mut order: Vec<usize> = (0..lprime).filter(|k| !tail.contains(k)).collect();
+            let tail_from = order.len();
+            order.extend(&tail);
+            let _ = pads_from;
+            for rel in relations_in_tail(rows, &order, tail_from) {
+                let support: Vec<usize> = (0..tail.len()).filter(|ii| rel.get(tail[*ii])).collect();
+                let value = rel.get(lprime);
+                // cross-check with the party's real shares (probe); a mismatch is a modelling error
+                if let Some(x) = &x_true {
+                    let real = support.iter().fold(false, |a, ii| a ^ x[tail[*ii]]);
+                    if real != value { out.harness = Some("relation derived by the observer model does not hold for the real shares".into()); return out; }
+                }
+                out.relations.push((v, o, support, value));
+            }
+        }
+    }
+    out.sample = json!({"n": n, "inputs_per_party": ins, "and_gates": ands, "p_eval": p_eval, "secret_bits_first_batch": secret_bits, "observer_victim_pairs": out.pairs, "equations": out.equations, "parity_equations_validated_against_probe": out.validated, "relations_found": out.relations.len()});
+    out
+}
+
+fn abit_view_part(rep: &mut Report, seed: u64, n_runs: usize) {
+    let outs = parallel_for(n_runs, threads(), |i| abit_view_run(i, seed));
+    let mut reported: std::collections::HashSet<String> = Default::default();
+    for o in outs {
+        rep.evaluations += 1;
+        if let Some(h) = o.harness {
+            rep.harness_error(h);
+            continue;
+        }
+        rep.distinct.insert(o.key.clone());
+        rep.add("abit_view_observer_victim_pairs", o.pairs as u64);
+        rep.add("abit_view_equations", o.equations as u64);
+        rep.add("abit_view_parities_validated_against_probe", o.validated as u64);
+        rep.add("abit_view_relations_found", o.relations.len() as u64);
+        for (v, ob, support, value) in &o.relations {
+            let kind = if support.len() == 1 { "the party's own mask share of one of its input wires" } else { "a linear relation among the party's own mask shares of its input wires" };
+            let sig = format!("the view of a single peer in an honest execution determines {kind} (opened aBit check parities)");
+            if reported.insert(sig.clone()) || rep.samples.len() < 3 {
+                rep.violation(sig, json!({"run": o.sample, "party": v, "observer": ob, "input_wires_in_relation": support, "xor_of_their_mask_shares": value}));
+            } else {
+                rep.violation(sig, json!({"party": v, "observer": ob, "input_wires_in_relation": support.len()}));
+            }
+        }
+        if o.relations.is_empty() && rep.evaluations % 97 == 3 {
+            rep.sample(o.sample);
+        }
+    }
+}
+
 pub fn run(tier: &str, seed: u64) -> i32 {
     let thorough = tier == "thorough";
     let mut rep = Report::new("C06", tier, seed, "exploration");
     let n_per = if thorough { 2048 } else { 256 };
     let (lo, hi) = (n_per * 48 / 256, n_per * 208 / 256);
-    rep.rule = format!("(1) balance: for the evaluator and a garbler (n=2), {n_per} executions with all own inputs 0 and {n_per} with all 1; per input wire the party's own mask share, recovered from the transcript only as masked_input ^ input ^ XOR of the others' shares, must be 1 in [{lo}, {hi}] of the executions. (2) canary: 128 random input bits must not occur in any message the party sends as packed bit run (either bit order), bool-byte run, decoded-bool run, nor complemented; the same for its own share vector. (3) freshness: all global keys (probe) and all 128-bit own-share vectors over all executions pairwise distinct. (5) per-peer independence: in 3- and 4-party runs no random-looking 16-byte block of a party's pairwise (non-broadcast) traffic to one peer occurs in its traffic to another peer. (4) disclosure: over 128+ executions with random inputs (3-AND circuit and a 1000-AND circuit whose preprocessing batches are full) no bit-valued field at a fixed position of the party's traffic (decoded bools, opened aShare check bits) agrees or disagrees with its own mask share of an input wire, or with the input bit, in more than 7/8 of the executions. (6) exact disclosure: over 64 executions with random inputs of a party with 9300 and 12345 input wires (aBit batches longer than 1024; thorough: also 1500, 9217, 10241, 18500 and 25000; both roles) no bit at any fixed position of the party's raw traffic (every byte of every message, incl. the packed OT-extension columns) equals or complements its own mask share of an input wire, or the input bit, in all 64 executions (chance match probability below 1e-6 per run). distinct = (role, input value, wire) cells of the balance test plus canary configurations (n, party, evaluator); non-trivial = the cell was filled from decoded transcripts");
+    rep.rule = format!("(1) balance: for the evaluator and a garbler (n=2), {n_per} executions with all own inputs 0 and {n_per} with all 1; per input wire the party's own mask share, recovered from the transcript only as masked_input ^ input ^ XOR of the others' shares, must be 1 in [{lo}, {hi}] of the executions. (2) canary: 128 random input bits must not occur in any message the party sends as packed bit run (either bit order), bool-byte run, decoded-bool run, nor complemented; the same for its own share vector. (3) freshness: all global keys (probe) and all 128-bit own-share vectors over all executions pairwise distinct. (5) per-peer independence: in 3- and 4-party runs no random-looking 16-byte block of a party's pairwise (non-broadcast) traffic to one peer occurs in its traffic to another peer. (4) disclosure: over 128+ executions with random inputs (3-AND circuit and a 1000-AND circuit whose preprocessing batches are full) no bit-valued field at a fixed position of the party's traffic (decoded bools, opened aShare check bits) agrees or disagrees with its own mask share of an input wire, or with the input bit, in more than 7/8 of the executions. (6) exact disclosure: over 64 executions with random inputs of a party with 9300 and 12345 input wires (aBit batches longer than 1024; thorough: also 1500, 9217, 10241, 18500 and 25000; both roles) no bit at any fixed position of the party's raw traffic (every byte of every message, incl. the packed OT-extension columns) equals or complements its own mask share of an input wire, or the input bit, in all 64 executions (chance match probability below 1e-6 per run). (7) observer model: in honest executions of tiny circuits (1-3 input bits per party, 0-3 or 30+ AND gates, n = 2 or 3) the GF(2) system a single peer can set up from its own view (public aBit check vectors expanded from the opened coin-toss seed, the party's opened parities, opened aShare check bits, shares sent to the observer) must not determine any linear relation among the party's own mask shares of its input wires; the model is validated per execution against the probed bit string (every parity equation must hold). distinct = (role, input value, wire) cells of the balance test plus canary configurations (n, party, evaluator); non-trivial = the cell was filled from decoded transcripts");
     rep.assumptions = vec![format!("fixed thresholds: honest false-alarm probability below 1e-20 per wire at N={n_per}; biases smaller than the thresholds and computational distinguishers are not detected")];
     // (1)
     let total = 2 * 2 * n_per;
@@ -604,5 +817,7 @@ pub fn run(tier: &str, seed: u64) -> i32 {
         }
     }
     rep.set("raw_disclosure_wall_s", json!(t6.elapsed().as_secs_f64()));
+    // (7) what a single peer's view determines through the opened aBit check parities
+    abit_view_part(&mut rep, seed, if thorough { 6000 } else { 600 });
     rep.finish()
 }
